@@ -12,13 +12,17 @@ static const long BASE = 1000;
 // ------------------------------------------------------------------ further read routes of one view: a view is consumed through several evaluators
 // (flat SIMD eval<V>(i) by compound assignment and reductions, flat scalar tail, n-D teval by same-rank assignment, flat copy into a tensor of
 // another rank); every one of them has to deliver the selected elements.  mk() builds the view afresh for each consumer.
-template <class T, class OT, class MK>
+template <class T, class OT, class MK> inline void flat_copy(Ctx& c, MK mk, const T* parent, const std::vector<int>& offs, const std::string& d, std::true_type) {
+    scrub_stack(); Tensor<T, OT::size()> o = mk(); launder(o.data()); cmp_pick(c, o.data(), parent, offs, "Tensor<T,size> flat=view", d, BASE); }
+// (index-tensor views do not offer construction of a tensor of another rank: not demanded)
+template <class T, class OT, class MK> inline void flat_copy(Ctx&, MK, const T*, const std::vector<int>&, const std::string&, std::false_type) {}
+template <class T, class OT, bool FLAT = true, class MK>
 inline void routes(Ctx& c, MK mk, const T* parent, const std::vector<int>& offs, const std::string& d) {
     if ((size_t)OT::size() != offs.size()) { c.fail("extents-mismatch", "size " + d); return; }
     { scrub_stack(); OT o; o.zeros(); launder(o.data()); o += mk(); launder(o.data()); cmp_pick(c, o.data(), parent, offs, "o=0; o+=view", d, BASE); }
     { scrub_stack(); OT o; o.fill(T(1)); launder(o.data()); o *= mk(); launder(o.data()); cmp_pick(c, o.data(), parent, offs, "o=1; o*=view", d, BASE); }
     { scrub_stack(); OT o; o.zeros(); launder(o.data()); o += T(2) * mk() - mk(); launder(o.data()); cmp_pick(c, o.data(), parent, offs, "o=0; o+=2*view-view", d, BASE); }
-    { scrub_stack(); Tensor<T, OT::size()> o = mk(); launder(o.data()); cmp_pick(c, o.data(), parent, offs, "Tensor<T,size> flat=view", d, BASE); }
+    flat_copy<T, OT>(c, mk, parent, offs, d, std::integral_constant<bool, FLAT>());
     { scrub_stack(); T s = sum(mk()); T w = 0; for (int k : offs) w += parent[k]; ++c.compared; c.digest_add(&s, 1);
       if (!num_eq(s, w)) { ++c.bad; if (c.mode.empty()) { c.mode = "wrong-element-selected"; c.first_bad = "sum(view) " + d + " got " + vstr(s) + " want " + vstr(w); } } }
 }
@@ -68,7 +72,7 @@ template <class T, size_t M, size_t N, size_t m, size_t n>
 void read2d(Ctx& c) {
     Rng g = c.rng();
     Tensor<T, M, N> A, B; fill_unique(A.data(), M * N, BASE); fill_unique(B.data(), M * N, 5 * BASE);
-    alignas(64) T mapbuf[M * N]; std::memcpy(mapbuf, A.data(), sizeof mapbuf); TensorMap<T, M, N> MA(mapbuf);
+    alignas(64) T mapbuf[M * N]; std::memcpy(mapbuf, A.data(), sizeof mapbuf); TensorMap<T, M, N> MA(mapbuf); const Tensor<T, M, N>& cA = A;
     std::vector<R1> r0, r1; enum_ranges((int)M, (int)m, r0); enum_ranges((int)N, (int)n, r1);
     size_t total = r0.size() * r1.size(); const size_t CAP = 4000;
     std::vector<int> offs;
@@ -83,6 +87,8 @@ void read2d(Ctx& c) {
         { Tensor<T, m, n> o = A(s0, s1) - B(s0, s1); launder(o.data());
           for (size_t j = 0; j < m * n; ++j) { ++c.compared; T w = A.data()[offs[j]] - B.data()[offs[j]]; if (!same_val(o.data()[j], w)) { ++c.bad; if (c.mode.empty()) { c.mode = "wrong-element-selected"; c.first_bad = "A(s,s)-B(s,s) " + d + " element " + std::to_string(j); } } } }
         routes<T, Tensor<T, m, n>>(c, [&]() { return A(s0, s1); }, A.data(), offs, d);
+        { Tensor<T, m, n> o = cA(s0, s1); launder(o.data()); cmp_pick(c, o.data(), A.data(), offs, "r=constA(seq,seq)", d, BASE); }
+        if (k % 5 == 0) routes<T, Tensor<T, m, n>>(c, [&]() { return cA(s0, s1); }, A.data(), offs, "const " + d);
         { Tensor<T, m, n> o; o = abs(A(s0, s1)); launder(o.data()); cmp_pick(c, o.data(), A.data(), offs, "abs(A(seq,seq))", d, BASE); }
         ++c.sub;
     }
@@ -93,15 +99,21 @@ void read2d(Ctx& c) {
 // integer mixed with ranges on rank 2: A(i,seq), A(seq,j), A(i,fseq), A(fseq,j); i,j >= 0 and -1 (last)
 template <class T, size_t M, size_t N>
 void read2d_int(Ctx& c) {
-    Tensor<T, M, N> A; fill_unique(A.data(), M * N, BASE);
+    Tensor<T, M, N> A; fill_unique(A.data(), M * N, BASE); const Tensor<T, M, N>& cA = A;
     for (int i = -1; i < (int)M; ++i) {
         int ii = i < 0 ? (int)M - 1 : i;
         { Tensor<T, 1, N> o = A(opaque(i), seq(0, (int)N)); for (size_t j = 0; j < N; ++j) c.eq(o.data()[j], A.data()[ii * N + j], "A(i,seq)", (long)j, "wrong-element-selected:A(int,seq)"); }
+        { Tensor<T, 1, N> o = cA(opaque(i), seq(0, (int)N)); for (size_t j = 0; j < N; ++j) c.eq(o.data()[j], A.data()[ii * N + j], "constA(i,seq)", (long)j, "wrong-element-selected:A(int,seq)"); }
+        { Tensor<T, 1, N> o = A(opaque(i), fseq<0, (int)N>()); for (size_t j = 0; j < N; ++j) c.eq(o.data()[j], A.data()[ii * N + j], "A(i,fseq)", (long)j, "wrong-element-selected:A(int,fseq)"); }
+        { Tensor<T, 1, N> o = cA(opaque(i), fseq<0, (int)N>()); for (size_t j = 0; j < N; ++j) c.eq(o.data()[j], A.data()[ii * N + j], "constA(i,fseq)", (long)j, "wrong-element-selected:A(int,fseq)"); }
         { Tensor<T, 1, N> o = A(opaque(i), all); for (size_t j = 0; j < N; ++j) c.eq(o.data()[j], A.data()[ii * N + j], "A(i,all)", (long)j, "wrong-element-selected:A(int,all)"); }
     }
     for (int j = -1; j < (int)N; ++j) {
         int jj = j < 0 ? (int)N - 1 : j;
         { Tensor<T, M, 1> o = A(seq(0, (int)M), opaque(j)); for (size_t i = 0; i < M; ++i) c.eq(o.data()[i], A.data()[i * N + jj], "A(seq,j)", (long)i, "wrong-element-selected:A(seq,int)"); }
+        { Tensor<T, M, 1> o = cA(seq(0, (int)M), opaque(j)); for (size_t i = 0; i < M; ++i) c.eq(o.data()[i], A.data()[i * N + jj], "constA(seq,j)", (long)i, "wrong-element-selected:A(seq,int)"); }
+        { Tensor<T, M, 1> o = A(fseq<0, (int)M>(), opaque(j)); for (size_t i = 0; i < M; ++i) c.eq(o.data()[i], A.data()[i * N + jj], "A(fseq,j)", (long)i, "wrong-element-selected:A(fseq,int)"); }
+        { Tensor<T, M, 1> o = cA(fseq<0, (int)M>(), opaque(j)); for (size_t i = 0; i < M; ++i) c.eq(o.data()[i], A.data()[i * N + jj], "constA(fseq,j)", (long)i, "wrong-element-selected:A(fseq,int)"); }
         { Tensor<T, M, 1> o = A(all, opaque(j)); for (size_t i = 0; i < M; ++i) c.eq(o.data()[i], A.data()[i * N + jj], "A(all,j)", (long)i, "wrong-element-selected:A(all,int)"); }
     }
     c.nontrivial = true;
@@ -117,6 +129,8 @@ struct ND<T, Index<D...>, Index<Mx...>> {
         std::string d; for (auto& r : rs) d += show(r) + ",";
         { Tensor<T, Mx...> o = A(seq(opaque(rs[I].F), opaque(rs[I].L), opaque(rs[I].S))...); launder(o.data()); cmp_pick(c, o.data(), A.data(), offs, "r=A(seq...)", d, BASE); }
         routes<T, Tensor<T, Mx...>>(c, [&]() { return A(seq(opaque(rs[I].F), opaque(rs[I].L), opaque(rs[I].S))...); }, A.data(), offs, d);
+        { const Tensor<T, D...>& cA = A; Tensor<T, Mx...> o = cA(seq(opaque(rs[I].F), opaque(rs[I].L), opaque(rs[I].S))...); launder(o.data()); cmp_pick(c, o.data(), A.data(), offs, "r=constA(seq...)", d, BASE);
+          if (c.sub % 4 == 0) routes<T, Tensor<T, Mx...>>(c, [&]() { return cA(seq(opaque(rs[I].F), opaque(rs[I].L), opaque(rs[I].S))...); }, A.data(), offs, "const " + d); }
         { Tensor<T, Mx...> o = A(seq(rs[I].F, rs[I].L, rs[I].S)...) + B(seq(rs[I].F, rs[I].L, rs[I].S)...); launder(o.data());
           for (size_t j = 0; j < offs.size(); ++j) { ++c.compared; T w = A.data()[offs[j]] + B.data()[offs[j]]; if (!same_val(o.data()[j], w)) { ++c.bad; if (c.mode.empty()) { c.mode = "wrong-element-selected"; c.first_bad = "A(s...)+B(s...) " + d + " element " + std::to_string(j); } } } }
     }
